@@ -79,6 +79,8 @@ type Interp struct {
 	trace   bool
 	foreignErr map[*ssa.Global]bool
 	looseEq    bool
+	blobOfStr  map[*Term]*Blob
+	pinned     map[*Term]uint64 // terms whose value is fixed on this path by a value case-split
 }
 
 func (in *Interp) addPC(t *Term) {
@@ -179,6 +181,7 @@ func (in *Interp) forkValues(t *Term, limit int) uint64 {
 		v := uint64(in.prefix[pos])
 		in.taken = append(in.taken, int(v))
 		in.addPC(in.ts.Eq(t, in.ts.BV(t.sort.W, v)))
+		in.pin(t, v)
 		return v
 	}
 	var vals []uint64
@@ -212,7 +215,30 @@ func (in *Interp) forkValues(t *Term, limit int) uint64 {
 	}
 	in.taken = append(in.taken, int(vals[0]))
 	in.addPC(in.ts.Eq(t, in.ts.BV(t.sort.W, vals[0])))
+	in.pin(t, vals[0])
 	return vals[0]
+}
+
+func (in *Interp) pin(t *Term, v uint64) {
+	if in.pinned == nil {
+		in.pinned = map[*Term]uint64{}
+	}
+	in.pinned[t] = v
+	// sign-extended views of the same term are pinned too
+	if t.op == OSext || t.op == OZext {
+		in.pinned[t.args[0]] = v & mask(t.args[0].sort.W)
+	}
+}
+
+// pinnedConst returns the constant a term is known to equal on this path, if any.
+func (in *Interp) pinnedConst(t *Term) *Term {
+	if t.IsConst() {
+		return t
+	}
+	if v, ok := in.pinned[t]; ok {
+		return in.ts.BV(t.sort.W, v)
+	}
+	return nil
 }
 
 func (in *Interp) branch(fr *frame, site ssa.Instruction, c *Term) bool {
@@ -314,6 +340,15 @@ func (in *Interp) global(g *ssa.Global) Ptr {
 	et := g.Type().(*types.Pointer).Elem()
 	*cell = in.zero(et)
 	in.glob[g] = cell
+	if g.Pkg != nil {
+		if data, ok := in.P.embeds[g.Pkg.Pkg.Path()+"."+g.Name()]; ok {
+			if _, isStr := (*cell).(*Term); isStr {
+				*cell = in.ts.Str(data)
+			} else {
+				*cell = in.mkBytes([]byte(data))
+			}
+		}
+	}
 	if g.Pkg != nil && !in.P.isOwn(g.Pkg.Pkg.Path()) {
 		in.initForeignGlobal(g, cell, et)
 	}
@@ -993,6 +1028,9 @@ func (in *Interp) strToBytes(s *Term) SliceV {
 			a[i] = in.ts.BV(8, uint64(s.s[i]))
 		}
 		return SliceV{A: a}
+	}
+	if b, ok := in.blobOfStr[s]; ok {
+		return SliceV{Blob: b}
 	}
 	return SliceV{Blob: in.strBlob(s)}
 }
